@@ -26,6 +26,9 @@ CHECKS = {
  "C06": ("exploration", "runtime monitor: deterministic scheduler parks every storage operation of a backup and a gc running on their own threads; all schedules to a preemption bound + random; restore + reference-scan oracle at the end",
          "Backup and gc/delete run concurrently on one archive with every storage operation parked until a deterministic scheduler grants it; all schedules with <=1 preemption, all 2-preemption schedules of one scenario (every scenario in the thorough tier) and random 3-5-switch schedules are executed against the real code, over archives with garbage blocks that the backup deduplicates against. After both finish every complete version must restore exactly and reference no removed block.",
          "Granularity is one storage operation (all archive I/O goes through Transport); interleavings beyond preemption bound 2 are sampled. Trusted: settled-detection of the scheduler (park callbacks + tracked top-level waker), E2 reader.", "3 C06"),
+ "C07": ("exploration", "runtime monitor: write-once rules checked on the logged storage operations (with pre/post file state) of histories and of two racing backups under the deterministic scheduler",
+         "Every mutating storage operation of every backup, interrupted/torn/resumed backup, delete and gc in generated histories is logged with the target's state before and after and checked against the write-once rules; two concurrent backups are run under all schedules to preemption bound 1, a grid (thorough: all) of bound 2 and random schedules, with the same rules on the merged log plus single-owner bands and exactly-one-winner.",
+         "Trusted: interceptor sees every storage effect; pre/post states read while the issuing actor is the only one running; E2 reference scan.", "3 C07"),
  "C11": ("exploration", "runtime monitor: executable order/validity model compared with Apath on exhaustive small alphabets + emitters observed on generated trees",
          "All pairs/triples of valid paths over two alphabets up to depth 4/3 and every string over a 13-component alphabet (exhaustive within the bound) are compared against an independent statement of the documented order and validity rule; the source walk, listings and independently decoded hunks of generated trees must be strictly increasing under it.",
          "Trusted: oracle::apath_key as restatement of doc/format.md; snap + serde_json to decode hunks.", "3 C11"),
